@@ -51,11 +51,13 @@ META = {
         "collapsed, strip/lower commute); (c) the title is gathered - as a comprehension, an append/join loop, a `+=` loop or in a "
         "package helper - from the same attribute of the same token types of the `.children` of the inline token at the same "
         "offset, that gather is the only source of the title, and the slug function is applied to it; (d) the CLI installs the "
-        "plugin with the level it filters by (inclusive), its output filter tests heading-ness and depth only, it builds its parser "
+        "plugin with the level it filters by (inclusive), that level does not pass through a truthiness default (`x or d`, "
+        "`x if x else d`: depth 0 is legal), its output filter tests heading-ness and depth only, it builds its parser "
         "through the factory family both front ends use with no tokenisation-relevant configuration field overridden, and switches "
         "no syntax rule afterwards (the command's helpers in cli.py are followed). "
         "R3 the slug computation is dominated by a fact equivalent to level <= heading_anchors (guards at the call sites one level "
-        "up are accepted). "
+        "up are accepted), and the membership validator of MdParserConfig.heading_anchors (literal collection or constant range, "
+        "evaluated statically) admits every depth 0-7 the property quantifies over. "
         "R4 the configured slug function wins when set and is called; the call is under except Exception/BaseException/bare; "
         "all paths through that handler issue exactly one HEADING_SLUG warning (helpers that warn on all their paths are "
         "followed), no other warning, store nothing into the registry or node['slug'], and cannot raise. "
@@ -74,7 +76,7 @@ META = {
     "not_decided": (
         "actual slug values for concrete titles and per-document equality of rendered anchors with the CLI output (needs the "
         "documents); behaviour of a user-supplied slug function; headings whose level was shifted by an include's heading-offset "
-        "(the CLI does not process includes); explicit targets that deliberately shadow a slug of the same name (documented "
+        "(the CLI does not process includes) and whether that offset is restored after the nested render (C05/C06/C15); explicit targets that deliberately shadow a slug of the same name (documented "
         "priority, C09); how the configuration values heading_anchors / heading_slug_func reach the renderer (validation and "
         "file-level merge: C13); survival of the published slug table across Sphinx parallel workers (C15); the warning issued "
         "for a missing cross-document anchor (C12); the CLI is compared with a default-configured render only (it cannot see conf.py); "
@@ -1202,6 +1204,33 @@ def _r2_cli(corpus: Corpus, rep: Report, sib: Module) -> None:
         rep.violation("C10.R2", k, cli.site(cmp_), "; ".join(problems))
     else:
         rep.ok("C10.R2", k, cli.site(cmp_), f"max_level={mx_text}, filter level <= {unparse(other)}")
+    # depth 0 is a legal depth (no anchors): the level may not go through a truthiness default
+    k0 = f"{pa.fq}|CLI depth 0 is honoured"
+    falsy = None
+    for owner_f, e in ((uf, mx), (ff, other)):
+        if e is None:
+            continue
+        for src in _key_sources(corpus, owner_f, e, 4):
+            for x in ast.walk(src):
+                if isinstance(x, ast.BoolOp) and isinstance(x.op, ast.Or) and not isinstance(x.values[0], ast.Constant):
+                    falsy = falsy or (x, f"`{short(x, 50)}`")
+                if isinstance(x, ast.IfExp):
+                    t = x.test
+                    neg = isinstance(t, ast.UnaryOp) and isinstance(t.op, ast.Not)
+                    t0 = t.operand if neg else t
+                    picked = x.orelse if neg else x.body
+                    if isinstance(t0, (ast.Name, ast.Attribute)) and unparse(t0) == unparse(picked):
+                        falsy = falsy or (x, f"`{short(x, 50)}`")
+    if falsy is not None:
+        rep.violation(
+            "C10.R2",
+            k0,
+            cli.site(falsy[0]),
+            f"the depth goes through the truthiness default {falsy[1]}: `-l 0` (a legal depth: no anchors, like heading_anchors = 0) is replaced by the default, "
+            "so the CLI prints anchors the renderer never assigns",
+        )
+    else:
+        rep.ok("C10.R2", k0, cli.site(cmp_), "no `x or default` / `x if x else default` on the level")
     _r2_cli_filter_conjuncts(rep, cli, pa, ff, cmp_)
     bf = uf
     while bf.parent_func is not None:
@@ -1528,7 +1557,7 @@ _REL_TEXT = {"le": "level <= heading_anchors", "lt": "level < heading_anchors", 
 
 @rule("C10.R3")
 def r3_depth(corpus: Corpus, rep: Report, tier: str):
-    rep.rule("C10.R3", "slug computation is dominated by `level <= heading_anchors` (inclusive, as range(1, max_level + 1) in the plugin)")
+    rep.rule("C10.R3", "slug computation is dominated by `level <= heading_anchors` (inclusive, as range(1, max_level + 1) in the plugin); the config validator admits depths 0-7")
     g = get_callgraph(corpus)
     n = 0
     for fi, call in _cus_call_sites(corpus):
@@ -1579,7 +1608,81 @@ def r3_depth(corpus: Corpus, rep: Report, tier: str):
             )
         else:
             rep.ok("C10.R3", k, site, f"guard `{short(rels[0][1], 50)}` gives level <= heading_anchors")
-    rep.expect_min("C10.R3", 1, "call site of compute_unique_slug")
+    _r3_depth_domain(corpus, rep)
+    rep.expect_min("C10.R3", 2, "call site of compute_unique_slug; depth domain of the configuration field")
+
+
+# the property quantifies over anchor depths 0-7 (six markdown levels plus one for a heading-offset; the pinned validator is in_([0..7]))
+_DEPTHS = frozenset(range(0, 8))
+
+
+def _int_domain(m: Module, e: ast.expr) -> frozenset | None:
+    """Set of ints denoted by a literal collection or a range(...) of constant-evaluable arguments."""
+    if isinstance(e, ast.Call) and dotted(e.func) in ("range", "list", "tuple", "set", "frozenset") and not e.keywords:
+        if dotted(e.func) == "range" and 1 <= len(e.args) <= 3:
+            try:
+                args = [m.eval_const(a) for a in e.args]
+            except Unsupported:
+                return None
+            if all(isinstance(a, int) for a in args):
+                return frozenset(range(*args))
+            return None
+        if len(e.args) == 1:
+            return _int_domain(m, e.args[0])
+        return None
+    try:
+        v = m.eval_const(e)
+    except Unsupported:
+        return None
+    if isinstance(v, (list, tuple, set, frozenset)) and all(isinstance(x, int) and not isinstance(x, bool) for x in v):
+        return frozenset(v)
+    return None
+
+
+def _r3_depth_domain(corpus: Corpus, rep: Report) -> None:
+    ci = corpus.cls("config.main:MdParserConfig")
+    m = ci.module
+    fld = None
+    for st in ci.node.body:
+        if isinstance(st, ast.AnnAssign) and isinstance(st.target, ast.Name) and st.target.id == "heading_anchors":
+            fld = st
+    if fld is None:
+        raise Unsupported("MdParserConfig has no field heading_anchors")
+    k = f"{ci.fq}.heading_anchors|every documented depth 0-7 is a valid value"
+    site = m.site(fld)
+    val = None
+    if isinstance(fld.value, ast.Call):
+        md = kwarg(fld.value, "metadata")
+        if isinstance(md, ast.Dict):
+            for kk, vv in zip(md.keys, md.values):
+                if isinstance(kk, ast.Constant) and kk.value == "validator":
+                    val = vv
+    if val is None:
+        raise Unsupported(f"{site}: validator of heading_anchors not found")
+    # in_(DOMAIN), possibly wrapped (optional(in_(...)), and_(instance_of(int), in_(...)))
+    doms = []
+    for c in ast.walk(val):
+        if isinstance(c, ast.Call) and (dotted(c.func) or "").split(".")[-1] == "in_" and len(c.args) == 1:
+            d = _int_domain(m, c.args[0])
+            if d is None:
+                raise Unsupported(f"{m.site(c)}: domain of `{short(c, 50)}` is not a literal collection / constant range")
+            doms.append((c, d))
+    if not doms:
+        raise Unsupported(f"{site}: heading_anchors is not validated by a membership validator (`{short(val, 50)}`); accepted depths not decided")
+    c, d = doms[0]
+    for c2, d2 in doms[1:]:
+        d = d & d2
+    missing = sorted(_DEPTHS - d)
+    if missing:
+        rep.violation(
+            "C10.R3",
+            k,
+            m.site(c),
+            f"the validator `{short(val, 60)}` admits {sorted(d)}: depth(s) {missing} of the documented range 0-7 are rejected as invalid configuration "
+            "(the setting is then ignored with a warning and no heading of that depth ever gets an anchor)",
+        )
+    else:
+        rep.ok("C10.R3", k, m.site(c), f"admits {sorted(d)}")
 
 
 # ---------------------------------------------------------------------------
@@ -2510,6 +2613,12 @@ def mutants(corpus: Corpus):
                     out.append(Mutant("c10-cli-filter-top-level-only", "C10.R2", cli.rel, splice(cli.src, cmp_, f"{segment(cli.src, cmp_)} and {tk[0]}.level == 0"), expect="every heading within the depth"))
                     out.append(Mutant("c10-cli-filter-skips-hidden", "C10.R2", cli.rel, splice(cli.src, cmp_, f"{segment(cli.src, cmp_)} and not {tk[0]}.hidden"), expect="every heading within the depth"))
             use = find_node(f, lambda n: isinstance(n, ast.Call) and isinstance(n.func, ast.Attribute) and n.func.attr == "use" and kwarg(n, "max_level") is not None)
+            if use is not None and not isinstance(kwarg(use, "max_level"), ast.Constant):
+                # class "truthiness default where 0 is a legal value"
+                lv = kwarg(use, "max_level")
+                lseg = segment(cli.src, lv)
+                out.append(Mutant("c10-cli-level-falsy-default", "C10.R2", cli.rel, splice(cli.src, lv, f"({lseg} or 2)"), expect="depth 0 is honoured"))
+                out.append(Mutant("c10-cli-level-truthy-conditional", "C10.R2", cli.rel, splice(cli.src, lv, f"({lseg} if {lseg} else 2)"), expect="depth 0 is honoured"))
             if use is not None:
                 out.append(Mutant("c10-cli-max-level-default", "C10.R2", cli.rel, splice(cli.src, kwarg(use, "max_level"), "2"), expect="CLI"))
     pa = cli.func("print_anchors")
@@ -2566,6 +2675,16 @@ def mutants(corpus: Corpus):
         kd = find_node(rd, lambda n: isinstance(n, (ast.Assign, ast.AnnAssign)) and n.value is not None and isinstance(n.value, ast.Subscript) and isinstance(n.value.slice, ast.Constant) and n.value.slice.value == "reftargetid")
         if kd is not None:
             out.append(Mutant("c10-doc-anchor-lookup-case-folded", "C10.R5", rm_.rel, splice(rm_.src, kd.value, f"({segment(rm_.src, kd.value)} or '').lower()"), expect="as written"))
+    # ---- R3(b): class "the configuration validator rejects a documented depth"
+    cmn = corpus.mod("config.main")
+    ci_ = cmn.classes.get("MdParserConfig")
+    if ci_ is not None:
+        for st in ci_.node.body:
+            if isinstance(st, ast.AnnAssign) and isinstance(st.target, ast.Name) and st.target.id == "heading_anchors" and st.value is not None:
+                inc = [c for c in ast.walk(st.value) if isinstance(c, ast.Call) and (dotted(c.func) or "").split(".")[-1] == "in_" and len(c.args) == 1]
+                if inc:
+                    out.append(Mutant("c10-depth-domain-range-7", "C10.R3", cmn.rel, splice(cmn.src, inc[0].args[0], "range(7)"), expect="documented depth"))
+                    out.append(Mutant("c10-depth-domain-starts-at-1", "C10.R3", cmn.rel, splice(cmn.src, inc[0].args[0], "[1, 2, 3, 4, 5, 6, 7]"), expect="documented depth"))
     # ---- R3
     for fi, call in _cus_call_sites(corpus):
         if fi.module is not base:
